@@ -209,6 +209,7 @@ func (f *FnCtx) oblige(st *bstate, name, kind string, tags []string, goal, src, 
 	if f.dry {
 		return nil
 	}
+	name = contractVocabulary(name)
 	if f.spec != nil {
 		for _, w := range f.spec.Waive {
 			if strings.Contains(name, w) {
